@@ -4,8 +4,17 @@ git show :3:known_findings.json > /tmp/kf_theirs.json; git show :2:known_finding
 python3 - <<'PY'
 import json
 o=json.load(open('/tmp/kf_ours.json')); t=json.load(open('/tmp/kf_theirs.json'))
-for f in t['findings']:
-    if f not in o['findings']: o['findings'].append(f)
+# union by (property, site); a `fixed` entry wins over a stale `known` copy of the same site (a stale `known` would
+# turn the return of a repaired defect into a KNOWN-FINDING line)
+best = {}
+order = []
+for f in o['findings'] + t['findings']:
+    k = (f['property'], f.get('site'))
+    if k not in best:
+        best[k] = f; order.append(k)
+    elif f['status'] == 'fixed' and best[k]['status'] != 'fixed':
+        best[k] = f
+o['findings'] = [best[k] for k in order]
 json.dump(o,open('/verif/known_findings.json','w'),indent=1)
 print(len(o['findings']),'findings')
 PY
